@@ -28,7 +28,7 @@ def _points(rng, n):
     return pts
 
 
-def numeric_statements(r, n):
+def numeric_statements(r, n, pts_override=None):
     """Check the property's own statements on the implementation.  Returns list of
     (what, replay) for failures."""
     from pyins import earth, transform, _numba_integrate as ni
@@ -38,7 +38,7 @@ def numeric_statements(r, n):
     def bad(what, **kw):
         fails.append((what, dict(kw)))
 
-    pts = _points(rng, n)
+    pts = pts_override if pts_override is not None else _points(rng, n)
     a, e2 = earth.A, earth.E2
     b2 = a * a * (1 - e2)
     for (lat, lon, alt) in pts:
@@ -168,6 +168,9 @@ def check(r):
     for what, rep in fails[:5]:
         r.violation(what, rep)
     if r.tier == 'thorough':
+        # Tier B (Interval): accuracy of Olson's series guess on the ellipsoid surface
+        r.prove('Props/C16B.v')
+        r.hygiene('Props/C16B.v')
         r.hygiene('Props/C16.v')
         r.coqchk('Props/C16.v', norec=False)
 
@@ -179,5 +182,31 @@ def falsify(r):
 
 
 def replay(obj):
-    print(obj)
-    return 0
+    """Re-run the property's statements on the implementation at the recorded point."""
+    import json
+    rep = obj.get('replay', obj)
+    print("recorded:", obj.get('what'), json.dumps(rep)[:600])
+    pt = None
+    if isinstance(rep, dict):
+        if 'lla' in rep:
+            pt = tuple(float(x) for x in rep['lla'][:3])
+        elif 'lat' in rep:
+            pt = (float(rep['lat']), float(rep.get('lon', 0.0)), float(rep.get('alt', 0.0)))
+        elif 'ecef' in rep:
+            from pyins import transform
+            pt = tuple(float(x) for x in transform.ecef_to_lla(rep['ecef']))
+    if pt is None:
+        print("no point recorded (proof or translator break): re-run ./check C16")
+        return 1 if obj.get('no_failing_input_found') else 0
+
+    class _R:
+        seed = 0
+
+        def case(self, *a, **k):
+            pass
+    fails = numeric_statements(_R(), 0, pts_override=[pt])
+    for what, d in fails[:5]:
+        print("STILL FAILS:", what, json.dumps(d, default=str)[:400])
+    if not fails:
+        print("all statements hold at", pt)
+    return 1 if fails else 0
